@@ -22,27 +22,8 @@ theorem C04_order_sorted (ws : List Waiter) (w : Waiter) (hs : PrioSorted ws) : 
 
 /-- Grants from the queue are made strictly at its head: one wake iteration removes exactly the first queued request. -/
 theorem C04_grant_is_head (db db' : DB) (k k' : Key) (r : Reply) (h : wakeIter db k = some (db', k', r)) :
-    ∃ w rest, k.waiters = w :: rest ∧ k'.waiters = rest ∧ r.req = w.cmd.req ∧ r.conn = w.conn ∧ r.result = RESULT_SUCCED := by
-  unfold wakeIter at h
-  cases hw : k.waiters with
-  | nil => simp [hw] at h
-  | cons w rest =>
-    refine ⟨w, rest, rfl, ?_⟩
-    simp only [hw] at h
-    by_cases hd : doLock k w.cmd = true
-    · simp only [hd, Bool.not_true, Bool.false_eq_true, if_false] at h
-      by_cases he : w.cmd.expried > 0
-      · simp only [he, if_true] at h
-        injection h with h; injection h with h1 h2; injection h2 with h2 h3
-        obtain ⟨hh, _, _, _, _, hw', _, _⟩ := grantHold_holders
-          { db with ctr := { db.ctr with waitCount := db.ctr.waitCount - 1 } } { k with waiters := rest } { w.cmd with conn := w.conn }
-        rw [← h2, ← h3, hw']
-        exact ⟨rfl, rfl, rfl, rfl⟩
-      · simp only [he, if_false] at h
-        injection h with h; injection h with h1 h2; injection h2 with h2 h3
-        rw [← h2, ← h3]
-        exact ⟨rfl, rfl, rfl, rfl⟩
-    · simp [hd] at h
+    ∃ w rest, k.waiters = w :: rest ∧ k'.waiters = rest ∧ r.req = w.cmd.req ∧ r.conn = w.conn ∧ r.result = RESULT_SUCCED :=
+  wakeIter_head h
 
 /-- The wake pass runs until the queue is empty or its head is not admissible. -/
 theorem C04_wake_pass_settles (db : DB) (k : Key) (out : List Reply) : Settled (wake db k out).2.1 :=
